@@ -225,6 +225,8 @@ def gen_case(rng, cid, allow_maxpool=True):
         if rng.random() < 0.75:
             a = act_layer(rng, poly_budget > 0)
             poly_budget -= a["g"] in ("sq", "cube")
+            if a["g"] == "relu6" and layers and layers[-1]["k"] in ("conv", "linear") and layers[-1]["ws"] == [1, 1]:
+                layers[-1]["ws"] = [3, 1]      # pre-activations on both sides of the upper knee at 6, not only of the one at 0
             layers.append(a)
         r = rng.random()
         if Lc >= 2 and r < 0.25:
@@ -250,6 +252,8 @@ def gen_case(rng, cid, allow_maxpool=True):
         if rng.random() < 0.6:
             a = act_layer(rng, poly_budget > 0)
             poly_budget -= a["g"] in ("sq", "cube")
+            if a["g"] == "relu6" and layers and layers[-1]["k"] in ("conv", "linear") and layers[-1]["ws"] == [1, 1]:
+                layers[-1]["ws"] = [3, 1]      # pre-activations on both sides of the upper knee at 6, not only of the one at 0
             layers.append(a)
     if layers[-1]["k"] == "act" and rng.random() < 0.7:
         units = rng.randint(1, 2)
